@@ -682,6 +682,13 @@ class XlsxRowWriter(AbstractRowWriter):
         """
         return self._worksheet
 
+    def write_rows(self, rows_to_write):
+        assert rows_to_write is not None
+
+        # Unlike other writers there is no target stream to write to.
+        for row_to_write in rows_to_write:
+            self.write_row(row_to_write)
+
     def write_row(self, row_to_write):
         assert row_to_write is not None
 
